@@ -4,6 +4,7 @@ import (
 	"github.com/tuneinsight/lattigo/v6/core/rlwe"
 	"github.com/tuneinsight/lattigo/v6/ring"
 	"github.com/tuneinsight/lattigo/v6/ring/ringqp"
+	"github.com/tuneinsight/lattigo/v6/utils/sampling"
 )
 
 // Encryptor is a type for encrypting RGSW ciphertexts. It implements the [rlwe.Encryptor]
@@ -122,4 +123,17 @@ func (enc Encryptor) EncryptZero(ct interface{}) (err error) {
 // Encryptors can be used concurrently.
 func (enc Encryptor) ShallowCopy() *Encryptor {
 	return &Encryptor{Encryptor: enc.Encryptor.ShallowCopy(), buffQP: enc.GetRLWEParameters().RingQP().NewPoly()}
+}
+
+// WithKey returns an [Encryptor] that encrypts under key and is otherwise this one:
+// like [rlwe.Encryptor.WithKey], whose result it wraps (the promoted method would
+// return an [rlwe.Encryptor], which cannot encrypt [rgsw.Ciphertext]).
+func (enc Encryptor) WithKey(key rlwe.EncryptionKey) *Encryptor {
+	return &Encryptor{Encryptor: enc.Encryptor.WithKey(key), buffQP: enc.buffQP}
+}
+
+// WithPRNG returns an [Encryptor] that draws its uniform polynomials from prng and is
+// otherwise this one: like [rlwe.Encryptor.WithPRNG], whose result it wraps.
+func (enc Encryptor) WithPRNG(prng sampling.PRNG) *Encryptor {
+	return &Encryptor{Encryptor: enc.Encryptor.WithPRNG(prng), buffQP: enc.buffQP}
 }
